@@ -10,6 +10,8 @@ from sa.guards import GuardView, names_in
 from sa.index import own_nodes
 from sa.report import Ctx
 
+from .common import generic_sweeps
+
 from .cp_common import default_raises, dispatcher_tags, flattener_tags, produced_tags, shape_dispatch_falls_through, structural_len_subjects
 
 EXPLANATION = (
@@ -122,6 +124,7 @@ def run(ctx: Ctx):
 
     # O7 domains only narrowed by propagators
     check_narrowing(ctx)
+    generic_sweeps(ctx, skip_stutter_modules=("solvor/sat.py",))
 
 
 def check_hints(ctx: Ctx, f, sink: str):
